@@ -119,6 +119,14 @@ func (e *Engine) verifyFunction(fn *ssa.Function, con *Contract, pathLimit int) 
 			}
 		}
 		var reqs []Term
+		st.heldEntry = map[string]bool{}
+		for _, cl := range con.Clauses {
+			if cl.Kind == "requires" && cl.E.Op == "call" && cl.E.Name == "held" {
+				k := env.lockKey(cl.E.Args[0])
+				st.held[k] = true
+				st.heldEntry[k] = true
+			}
+		}
 		for _, cl := range con.Clauses {
 			if cl.Kind == "requires" {
 				g := env.evalBool(cl.E)
@@ -177,6 +185,9 @@ func (x *Exec) rootReturn(st *State, f *Frame, res []Val) {
 	con := x.con
 	// every lock taken must have been released
 	for k := range st.held {
+		if st.heldEntry[k] {
+			continue
+		}
 		x.emit(st, "lock-released", k[strings.LastIndex(k, ".")+1:], "mutex released on every path", nil, TFalse)
 	}
 	if con == nil {
@@ -264,6 +275,9 @@ func (x *Exec) frameObligations(st *State, env *Env, con *Contract) {
 			continue
 		}
 		base := baseHeap("0", fam, h.Dims, h.Elem)
+		if fb, ok := st.frameBase[fam]; ok {
+			base = fb
+		}
 		if h.Name == base.Name {
 			continue
 		}
